@@ -4,6 +4,7 @@ from props import shared
 
 PID = "C07"
 LEAN_MODULES = ['BemppVerif.Props.C07', 'BemppVerif.Gen.AsmMatch']
+LEAN_MODULES += shared.CTOR_MODULES
 N = "BemppVerif.C07."
 THEOREMS = []
 PARTIAL = {N + "regular_eq_tested_potential": "proved for kernels that do not depend on the test normal (single and double layer "
@@ -14,6 +15,7 @@ TRUSTED = [
     "theorems are about terms recorded while running the undecorated source of the real functions",
     "hand model Model/Asm.lean tied to the source by the generated AsmMatch theorems (symbolic, one generic configuration)",
     "classical analysis that is used but not formalised is named in PARTIAL",
+    shared.CTOR_TRUSTED,
 ]
 ASSUMPTIONS = []
 RULE = 'correspondence: compiled assemblers vs their traces at random numeric configurations (Tie B validation); oracle: props/c07_oracle.py'
@@ -27,6 +29,9 @@ def generate(ctx):
     THEOREMS[:] = ([N + t for t in ("regular_eq_tested_potential", "disjoint_grids_regular_only", "element_major_index_injective")]
                    + [shared.SPEC + "localReg_eq_tested_potential"]
                    + shared.asm_theorems("two_grid_operator", "potential_matches", "regular_matches"))
+    info.update(shared.gen_ctors()[0])
+    THEOREMS.extend(shared.ctor_theorems('laplace_boundary', 'helmholtz_boundary', 'modified_boundary', 'maxwell_boundary', 'laplace_potential', 'helmholtz_potential', 'modified_potential', 'maxwell_potential')
+                    + [t for t in shared.CTOR_SPEC if t.split('.')[-1] in ('singular_part_and_dtype', 'maxwell_kernel_and_dimension')])
     return info
 
 
